@@ -723,7 +723,7 @@ def oracle_restart(evs, meta):
 
 
 # ------------------------------------------------------------------ C20: gathering against scripted servers
-STUN_MODES = ["ok", "nat", "nat", "natlate", "nattwice", "silent", "garbage", "wrongtid", "err400", "err420", "err500", "err300", "err401", "err438"]
+STUN_MODES = ["ok", "nat", "nat", "natlate", "nattwice", "sameip", "silent", "garbage", "wrongtid", "err400", "err420", "err500", "err300", "err401", "err438"]
 TURN_MODES = ["ok", "ok", "twice", "silent", "garbage", "wrongtid", "err400", "err403", "err437", "err486", "err500", "err300", "turn438", "err401", "err438"]
 TURN_OK = ("ok", "twice")
 
@@ -814,6 +814,9 @@ def oracle_gather(evs, meta):
                 for ip in ips:
                     a, b, cc, e_ = ip.split(".")
                     exp.append((1, "198.51.%s.%s" % (cc, e_), ip))
+            if stun == "sameip":
+                for ip in ips:
+                    exp.append((1, ip, ip))       # mapped address = the host's IP with another port: not redundant, a server reflexive candidate
             for k, m in enumerate(turns if t0 == phases[0][0] else meta["turns2"]):
                 if m in TURN_OK:
                     exp.append((3, "10.9.%d.1" % (k + 1), None))
